@@ -98,6 +98,9 @@ fn run(ctx: &mut Ctx) {
     progu_case(ctx, vec![Instruction::Gate(Gate { name: "X".into(), parameters: vec![], qubits: fixed(&[0, 1]), modifiers: vec![GateModifier::Controlled] }), plain("X", vec![], &[1])], 2);
     progu_case(ctx, vec![Instruction::Gate(Gate { name: "RZ".into(), parameters: vec![real(0.7)], qubits: fixed(&[2]), modifiers: vec![GateModifier::Dagger] }), plain("RZ", vec![real(0.7)], &[2])], 3);
     progu_case(ctx, vec![Instruction::Gate(Gate { name: "RX".into(), parameters: vec![real(0.1), real(0.2)], qubits: fixed(&[0, 1]), modifiers: vec![GateModifier::Forked] }), plain("RX", vec![real(0.2)], &[1])], 2);
+    // unary plus (API only): a seeded fast path that negated every prefix expression was missed before stream 9
+    gate_case(ctx, "RX", vec![qvh::expr::prefix(quil_rs::expression::PrefixOperator::Plus, real(0.7))], fixed(&[0]), 1);
+    progu_case(ctx, vec![plain("PSWAP", vec![qvh::expr::prefix(quil_rs::expression::PrefixOperator::Plus, qvh::expr::infix(real(0.5), quil_rs::expression::InfixOperator::Plus, real(0.2)))], &[2, 0])], 3);
     progu_case(ctx, vec![plain("RZ", vec![real(2.0 * std::f64::consts::PI)], &[0])], 1);
     progu_case(ctx, vec![plain("RX", vec![real(-2.0 * std::f64::consts::PI)], &[1])], 2);
     progu_case(ctx, vec![Instruction::Gate(parse_gate("RY", "2*pi", &[0]))], 1);
@@ -264,6 +267,29 @@ fn run(ctx: &mut Ctx) {
             let g = parse_gate(name, text, &qs);
             gate_case(ctx, name, g.parameters.clone(), g.qubits.clone(), n);
             progu_case(ctx, vec![Instruction::Gate(g.clone()), Instruction::Gate(g)], n);
+        }
+    }
+
+    // ---- 9. the same constant value written in every expression form the AST allows (API-built: the parser never
+    // produces unary plus), pi forms, random constant trees of depth ≤ 3, and non-constant parameters (rejected);
+    // through Gate::to_unitary and Program::to_unitary. The MODEL evaluates the expression.
+    let mut rng = ctx.rng(20);
+    for (name, k) in PARAM_GATES {
+        let mut forms: Vec<Expression> = Vec::new();
+        for v in [0.7, -1.3] {
+            forms.extend(constant_forms(v));
+        }
+        forms.extend(pi_forms());
+        let n_random = if quick { 12 } else { 200 };
+        for _ in 0..n_random {
+            forms.push(random_constant_expr(&mut rng));
+        }
+        forms.extend(nonconstant_forms());
+        for e in forms {
+            let n = k as u64 + rng.below(2);
+            let qs = random_placement(&mut rng, k, n);
+            gate_case(ctx, name, vec![e.clone()], fixed(&qs), n);
+            progu_case(ctx, vec![plain("H", vec![], &[qs[0]]), plain(name, vec![e], &qs)], n);
         }
     }
 }
